@@ -643,7 +643,8 @@ def em5(model):
                 vs = T.resolve_local(model, x)
                 return bool(vs) and all(v is not x and unparse(v).endswith('.txt') for v in vs)
             return False
-        found = any(t and isinstance(e, ast.Compare) and isinstance(e.ops[0], ast.Eq)
+        found = any(isinstance(e, ast.Compare) and len(e.ops) == 1
+                    and ((isinstance(e.ops[0], ast.Eq) and t) or (isinstance(e.ops[0], ast.NotEq) and not t))
                     and ((unparse(e.comparators[0]) == endname and is_txt(e.left))
                          or (unparse(e.left) == endname and is_txt(e.comparators[0])))
                     for e, t in guards.facts(n))
